@@ -101,13 +101,9 @@ func (sw *StreamReader) ReadEnvelopeBegin() (stream.EnvelopeHeader, error) {
 func (sw *StreamReader) readNonStrictEnvelope(length int32) (stream.EnvelopeHeader, error) {
 	var eh stream.EnvelopeHeader
 
-	buf := make([]byte, length)
-	for i := int32(0); i < length; i++ {
-		i8, err := sw.ReadInt8()
-		if err != nil {
-			return eh, err
-		}
-		buf[i] = byte(i8)
+	buf, err := sw.readBytes(length)
+	if err != nil {
+		return eh, err
 	}
 
 	typ, err := sw.ReadInt8()
